@@ -35,6 +35,10 @@
 //	                             evaluation time, HTTP code, result size, error text)
 //	srv.ResetLog()
 //	srv.SetDB(db)                swap the database (requests in flight keep the old one)
+//	srv.SetFixtures(fx)          swap the fixtures
+//	promsrv.Shared()             one lazily started server per process, never closed: property tests that run
+//	                             thousands of cases should reuse it (SetDB + ResetLog per case) instead of opening a
+//	                             listener per case - loopback ports in TIME_WAIT run out otherwise
 //	srv.Now = func() time.Time   clock used for instant queries that carry no `time` parameter (default time.Now)
 //
 // Endpoints and wire format (what pint's internal/promapi decoders read):
@@ -460,7 +464,14 @@ func New(db *DB, fx Fixtures) *Server {
 		db = &DB{}
 	}
 	s := &Server{db: db, q: db.Queryable(), fx: fx, Now: time.Now}
-	l, err := net.Listen("tcp", "127.0.0.1:0")
+	var l net.Listener
+	var err error
+	for attempt := 0; attempt < 50; attempt++ { // ephemeral ports can run short on a busy machine
+		if l, err = net.Listen("tcp", "127.0.0.1:0"); err == nil {
+			break
+		}
+		time.Sleep(100 * time.Millisecond)
+	}
 	if err != nil {
 		panic(fmt.Sprintf("promsrv: cannot listen on loopback: %v", err))
 	}
@@ -468,6 +479,17 @@ func New(db *DB, fx Fixtures) *Server {
 	s.hs.Start()
 	s.URL = s.hs.URL
 	return s
+}
+
+var (
+	sharedOnce sync.Once
+	shared     *Server
+)
+
+// Shared returns the per-process server (started on first use, never closed).
+func Shared() *Server {
+	sharedOnce.Do(func() { shared = New(&DB{}, DefaultFixtures()) })
+	return shared
 }
 
 func (s *Server) Close() {
